@@ -342,6 +342,29 @@ def _value_contracts(x, donors, rng):
                         out.append(('but() shares the metadata dict with the original', 'but-metadata-shared'))
                     elif y.metadata != x.metadata:
                         out.append(('but() does not carry a copy of the metadata', 'but-metadata-lost'))
+        # a value that compares equal in Python but is not the stored one (True / 1, False / 0, 2 / 2.0): `but` must not treat it
+        # as "unchanged" - the result has to be what a fresh construction with that value is
+        if cls.__name__ == 'HplLiteral' and 'value' in same:
+            v = same['value']
+            alt = None
+            if isinstance(v, bool):
+                alt = int(v)
+            elif isinstance(v, int) and v in (0, 1):
+                alt = bool(v)
+            elif isinstance(v, int):
+                alt = float(v)
+            if alt is not None:
+                try:
+                    y = x.but(value=alt)
+                except Exception:
+                    y = None
+                try:
+                    fresh3 = cls(**dict(same, value=alt))
+                except Exception:
+                    fresh3 = None
+                if y is not None and fresh3 is not None:
+                    if not (y == fresh3 and hash(y) == hash(fresh3) and y.data_type == fresh3.data_type and type(y.value) is type(fresh3.value)):
+                        out.append((f'but(value={alt!r}) on the literal {v!r} is not what a fresh construction with that value is', 'but-fresh'))
     finally:
         x.metadata.clear()
         x.metadata.update(saved)
